@@ -1523,3 +1523,49 @@ class weakset_snapshot:
             units = E.repo.get(RUN + "service:ServiceUnit.units")
             out["units()-is-that-copy-of-the-active-units"] = units is not None and "_weakset_copy(cls.__active_units__)" in ast.unparse(units.node)
         return out
+
+
+# ---- the constructors: the initial state of the lifecycle ------------------------------------------------------------------------------------
+def _empty_map(c, m):
+    """no key at all (and an empty key sequence)"""
+    return c.And(z3.Select(c.ctx.rd(m._heap, "$mhas"), m.id) == z3.K(Z.Val, z3.BoolVal(False)), m.keys.len == 0)
+
+
+@contract(RUN + "meta_runner:MetaRunner.__init__", props=["C12", "C03"])
+class meta_runner_init:
+    """a new MetaRunner has NO runner and NO queued payload for any flavour (its own new maps) and is not running"""
+    new_object = "self"
+    params = dict(self=MetaR)
+    transparent = True        # callers (ServiceRunner.__init__) execute these four assignments themselves
+
+    def writes(c, self):
+        return [(self, f) for f in ("_logger", "_runners", "_runner_queues", "running")]
+
+    def ensures(c, self):
+        fresh_ = lambda v: Z.Val.id(v.t) >= c.ctx.alloc0
+        return {"no-runner-for-any-flavour": c.And(fresh_(self._runners), _empty_map(c, self._runners)),
+                "no-payload-queued-for-any-flavour": c.And(fresh_(self._runner_queues), _empty_map(c, self._runner_queues), self._runners.t != self._runner_queues.t),
+                "not-running": c.And(fresh_(self.running), c.Not(flag(self.running, "isset")))}
+
+
+@contract(RUN + "service:ServiceRunner.__init__", props=["C12"])
+class service_runner_init:
+    """a new ServiceRunner is shut down and not running, has no shutdown pending, owns a NEW empty MetaRunner, and accepts with the given delay"""
+    new_object = "self"
+    params = dict(self=SvcR, accept_delay=NumFin)
+    has_events = True          # the one event: _is_shutdown.set()
+
+    def writes(c, self, accept_delay):
+        return [(self, f) for f in ("_logger", "_meta_runner", "_must_shutdown", "_is_shutdown", "running", "accept_delay")] + [("all", "isset", lambda x: x >= c.ctx.alloc0)]
+
+    def ensures(c, self, accept_delay):
+        fresh_ = lambda v: Z.Val.id(v.t) >= c.ctx.alloc0
+        mr = self._meta_runner
+        return {"shut-down-and-not-running-two-different-events": c.And(fresh_(self._is_shutdown), fresh_(self.running), self._is_shutdown.t != self.running.t,
+                                                                       flag(self._is_shutdown, "isset"), c.Not(flag(self.running, "isset"))),
+                "no-shutdown-pending": c.Not(Z.Val.b(self._must_shutdown.t)),
+                "owns-a-new-meta-runner": c.And(fresh_(mr), mr.cls_is(RUN + "meta_runner:MetaRunner")),
+                "which-has-no-runners": _empty_map(c, mr._runners),
+                "and-no-queued-payloads": _empty_map(c, mr._runner_queues),
+                "and-is-not-running": c.Not(flag(mr.running, "isset")),
+                "accepts-with-the-given-delay": self.accept_delay.same(accept_delay)}
